@@ -640,11 +640,44 @@ def _settle(res, fn, cfg, opts, solver, p, label, verdict, env, shown,
         res.discharged += 1
         return
     if verdict == 'unknown':
+        # no verdict from the solver: before giving up, look at one concrete
+        # point of the path (a model of assumptions + path condition).  If the
+        # two sides differ there, that point is a candidate counter-example
+        # and goes through the same replay on the float code as a solver
+        # counter-example; if they agree nothing is concluded.
+        w = _numeric_witness(solver, p, lt_, rt_) if lt_ is not None else None
+        if w is not None:
+            _violation(res, fn, cfg, opts, solver, p, label, w,
+                       'solver inconclusive; the sides differ at a point of '
+                       'the path', lt_, rt_)
+            return
         res.inconclusive.append((label, 'solver unknown/timeout'))
         return
     # refuted: concretise and replay
     _violation(res, fn, cfg, opts, solver, p, label, env,
                'solver counter-example', lt_, rt_)
+
+
+def _numeric_witness(solver, p, lt_, rt_):
+    try:
+        r, m = solver.model(p.conds + _spread(p.conds, 3))
+        if r != 'sat':
+            r, m = solver.model(p.conds)
+        if r != 'sat':
+            return None
+        env = _fl(m)
+        for n in T.variables([lt_, rt_]):
+            if n not in env and n != 'pi':
+                env[n] = _default_value(n)
+        ufs = UFRegistry()
+        a = T.evalf(lt_, env, {'*': ufs})
+        b = T.evalf(rt_, env, {'*': ufs})
+    except (T.Undefined, OverflowError, ZeroDivisionError,
+            NotImplementedError, KeyError, ValueError):
+        return None
+    if close(a, b, 1e-6):
+        return None
+    return env
 
 
 def _fl(env):
